@@ -78,6 +78,22 @@ def check_genbank(k1, l1, q1, k2, l2, q2, start):
     back = gb.get_annotated_sequence(gb.GenBankFile.read(io.StringIO(out.getvalue())))
     if back.sequence != seq or back.sequence_start != start or back.annotation != shifted:
         return f"annotated sequence (start {start}): sequence_start {back.sequence_start}, annotation {sorted(map(repr, back.annotation))}"
+    # the same through GenPept with a protein (stop symbols and ambiguity letters are symbols of the sequence) and through
+    # GenBank with ambiguity letters
+    from biotite.sequence import ProteinSequence
+    for fmt, sq, mol in (("gp", ProteinSequence("MKT*LVAGXBZ*AWYCH*KLMN"), "AA"), ("gb", NucleotideSequence("ACGTNNRYKMSWBDHVACGTACGT"), "DNA")):
+        aseq = AnnotatedSequence(shifted, sq, sequence_start=start)
+        f3 = gb.GenBankFile()
+        gb.set_locus(f3, "X", len(sq), mol)
+        gb.set_annotated_sequence(f3, aseq)
+        out = io.StringIO()
+        f3.write(out)
+        g3 = gb.GenBankFile.read(io.StringIO(out.getvalue()))
+        back = gb.get_annotated_sequence(g3, format=fmt)
+        if str(back.sequence) != str(sq) or type(back.sequence) is not type(sq) or back.sequence_start != start or back.annotation != shifted:
+            return f"annotated sequence ({fmt}, start {start}): wrote {str(sq)}, read {str(back.sequence)} at {back.sequence_start}"
+        if str(gb.get_sequence(g3, format=fmt)) != str(sq):
+            return f"get_sequence ({fmt}): wrote {str(sq)}, read {str(gb.get_sequence(g3, format=fmt))}"
     return None
 
 
